@@ -2,7 +2,7 @@
 From Coq Require Import List ZArith NArith Bool Arith String Ascii Lia QArith Qpower.
 From NV Require Import NumFmt.Model.
 Import ListNotations.
-Open Scope N_scope.
+Local Open Scope N_scope.
 
 Definition wfd (ds : digits) : Prop := Forall (fun d => d < 10) ds.
 
